@@ -10,7 +10,9 @@ Inductive case :=
 | CBuild (typed : bool) (d : sdef) (fuel : Z) (rk : list (text * Z)) (s : stream)
     (* tree_class.build_random_tree(structure_def) with random/fabulist reading s;
        rk = a rank of the node types, proposed by the harness *)
-| CCyclic (d : sdef) (fuel : Z) (s : stream).
+| CCyclic (d : sdef) (fuel : Z) (s : stream)
+| CCtor (r : rnd).
+    (* constructing the randomizer: accepted, or AssertionError *)
     (* D39: cyclic relation graph; the model's tree is as high as the fuel allows *)
 
 Definition sx_q (q : Q) : sx := let r := Qred q in L [A 3; A (Qnum r); A (Zpos (Qden r))].
@@ -26,12 +28,15 @@ Definition sx_value (v : value) : sx :=
   | VFlt q => sx_q q
   | VStr t => L [A 4; sx_tmpl t]
   | VDate o => L [A 5; A o]
+  | VFac n => L [A 6; A n]
+  | VCbSet _ _ => L [A 7]
+  | VCbDel _ => L [A 8]
   end.
 
 Fixpoint sx_gt (typed : bool) (t : gt) : sx :=
   match t with
-  | G ty attrs ch =>
-      L [ sx_opt sx_text (if typed then Some ty else None);
+  | G ty fac attrs ch =>
+      L [ sx_opt sx_text (if typed then Some ty else None); A fac;
           L (map (fun kv => L [sx_text (fst kv); sx_value (snd kv)]) attrs);
           L (map (sx_gt typed) ch) ]
   end.
@@ -43,7 +48,9 @@ Definition in_domain (d : sdef) (fuel : Z) (rk : list (text * Z)) : bool :=
 
 Definition run20 (c : case) : sx :=
   match c with
+  | CCtor r => L [A (-3); sx_bool (ctor_ok r)]
   | CBuild typed d fuel rk s =>
+      if negb (def_accepted d) then L [A (-2); A 6] else       (* AssertionError *)
       match build_random_tree d typed (Z.to_nat fuel) s with
       | (cls, name, f) =>
           L [sx_bool cls; sx_opt sx_text name; L (map (sx_gt typed) f); sx_bool (in_domain d fuel rk)]
